@@ -783,13 +783,13 @@ def run(facts, rep, tier, ctx):
     # the union is over the layers the caller gave, resolved at each call: a constructor that filters or re-orders them (keeps only
     # the layers that exist at construction time) drops what such a layer holds later from the union (shared with C08 R08.8)
     from . import c08 as _c08
-    n = _c08.constructor_rules(facts, rep, ws, "R09.8")
-    rep.floor("overlay constructors judged (R09.8)", n, 1)
+    n = _c08.constructor_rules(facts, rep, ws, "R09.9")
+    rep.floor("overlay constructors judged (R09.9)", n, 1)
     # the async overlay is a separate copy of the same code
     wa = World(facts, True)
     rep.ob("R09.A", "async_vfs", "async world present", wa.present(), "", "")
     if wa.present():
-        _c08.constructor_rules(facts, rep, wa, "A/R09.8")
+        _c08.constructor_rules(facts, rep, wa, "A/R09.9")
         A = c10._Prefixed(rep, "A")
         k = table_u(facts, A, wa, "R09.1") + materialisation_rules(facts, A, wa) + resolver_rules(facts, A, wa) + \
             listing_rules(facts, A, wa) + c10.marker_rules(facts, A, wa, prefix="R09.5") + relative_join_rules(facts, A, wa)
